@@ -341,6 +341,92 @@ Definition ttm_to_matrix_einsum (cores : list (tensor F)) : res (tensor F) :=
 Definition ttm_to_unfolded_einsum cores (mode : nat) := rbind (ttm_to_tensor_einsum cores) (fun t => unfold zero t mode).
 Definition ttm_to_vec_einsum cores := rbind (ttm_to_tensor_einsum cores) tensor_to_vec.
 
+(* ------------------------------------------------------------------ einsum tenalg backend: CP and Tucker *)
+(* Under tenalg.set_backend("einsum") cp_tensor.py / tucker_tensor.py run the same code with the einsum khatri_rao and the einsum
+   multi_mode_dot.  Both are ONE np.einsum call; they are modelled by their sum-of-products semantics (as for the TT-matrix).
+   Malformed operands: the model answers Err unless all shapes agree exactly (np.einsum would broadcast size-1 dimensions);
+   that corner is not compared (the rejection half is compared on the validators and the core routes). *)
+Fixpoint kr_entry (ms : list (tensor F)) (js : list nat) (r : nat) : F :=
+  match ms, js with
+  | m :: ms', j :: js' => get2 m j r *f kr_entry ms' js' r
+  | _, _ => one
+  end.
+(* einsum khatri_rao(matrices, mask=mask): a single matrix is returned as it is (times the mask column); otherwise
+   einsum("ba,ca,..[,bc..]->bc..a") reshaped to (-1, n_columns) *)
+Definition kr_einsum (ms : list (tensor F)) (mask : option (tensor F)) : res (tensor F) :=
+  match ms with
+  | [] => Err
+  | [m] => match mask with None => Ok m | Some mv => apply_mask m mv end
+  | m :: _ =>
+    let R := ncols m in
+    if forallb (fun x => (ndim x =? 2) && (ncols x =? R)) ms then
+      let ns := map nrows ms in
+      match mask with
+      | None => Ok (tabulate [prod ns; R] (fun idx => kr_entry ms (unravel ns (ix 0 idx)) (ix 1 idx)))
+      | Some mv =>
+        if length (data mv) =? prod ns then
+          Ok (tabulate [prod ns; R] (fun idx => kr_entry ms (unravel ns (ix 0 idx)) (ix 1 idx) *f nth (ix 0 idx) (data mv) zero))
+        else Err
+      end
+    else Err
+  end.
+Definition cp_to_tensor_from_einsum (v : res (list nat * nat)) (w : option (tensor F)) (fs : list (tensor F)) (mask : option (tensor F))
+  : res (tensor F) :=
+  rbind v (fun sr =>
+    let shp := fst sr in
+    let fs := as_matrices fs in
+    if negb (all_2d fs) then Err else
+    match fs with
+    | [] => Err
+    | fa :: rest =>
+      let f0w := opt_scale w fa in
+      if length shp =? 1 then
+        match mask with None => Ok (sum_axis1 f0w) | Some m => mask_vec (sum_axis1 f0w) m end
+      else match mask with
+           | None => rbind (kr_einsum (remove_nth 0 fs) None) (fun K =>
+                     rbind (mdot f0w (mT K)) (fun U => fold zero U 0 shp))
+           | Some m => rbind (kr_einsum (f0w :: rest) (Some m)) (fun KM => fold zero (sum_axis1 KM) 0 shp)
+           end
+    end).
+Definition cp_to_unfolded_from_einsum (v : res (list nat * nat)) (w : option (tensor F)) (fs : list (tensor F)) (mode : nat) : res (tensor F) :=
+  rbind v (fun sr =>
+    if length (fst sr) =? 1 then
+      (if mode =? 0 then rbind (cp_to_tensor_from_einsum v w fs None) (fun t => reshape_spec [None; Some 1] t) else Err)
+    else let fs := as_matrices fs in
+    if negb (all_2d fs) then Err
+    else if mode <? length fs then
+      rbind (kr_einsum (remove_nth mode fs) None) (fun K =>
+        mdot (opt_scale w (nth mode fs (mk [] []))) (mT K))
+    else Err).
+Definition cp_to_vec_from_einsum v (w : option (tensor F)) (fs : list (tensor F)) : res (tensor F) :=
+  rbind (cp_to_tensor_from_einsum v w fs None) tensor_to_vec.
+
+(* einsum multi_mode_dot(core, factors, skip, transpose) with matrix operands: one einsum contracting every non-skipped mode *)
+Fixpoint ein_tk_prod (k : nat) (skip : option nat) (Ms : list (tensor F)) (is js : list nat) : F :=
+  match Ms, is, js with
+  | M :: Ms', i :: is', j :: js' =>
+      (if match skip with Some s => s =? k | None => false end then (if i =? j then one else zero) else get2 M i j)
+      *f ein_tk_prod (S k) skip Ms' is' js'
+  | _, _, _ => one
+  end.
+Fixpoint ein_tk_dims (k : nat) (skip : option nat) (cs : list nat) (Ms : list (tensor F)) : res (list nat) :=
+  match Ms, cs with
+  | [], [] => Ok []
+  | M :: Ms', c :: cs' =>
+      if match skip with Some s => s =? k | None => false end then rbind (ein_tk_dims (S k) skip cs' Ms') (fun ns => Ok (c :: ns))
+      else if (ndim M =? 2) && (ncols M =? c) then rbind (ein_tk_dims (S k) skip cs' Ms') (fun ns => Ok (nrows M :: ns)) else Err
+  | _, _ => Err
+  end.
+Definition tucker_to_tensor_einsum (core : tensor F) (fs : list (tensor F)) (skip : option nat) (tr : bool) : res (tensor F) :=
+  let fs' := if tr then map mT fs else fs in
+  if tr && negb (forallb (fun M => ndim M =? 2) fs) then Err else
+  rbind (ein_tk_dims 0 skip (shape core) fs') (fun ns =>
+    Ok (tabulate ns (fun idx =>
+          sum_idx F zero (fadd Op) (shape core) (fun js => get zero core js *f ein_tk_prod 0 skip fs' idx js)))).
+Definition tucker_to_unfolded_einsum core fs (mode : nat) skip tr :=
+  rbind (tucker_to_tensor_einsum core fs skip tr) (fun t => unfold zero t mode).
+Definition tucker_to_vec_einsum core fs skip tr := rbind (tucker_to_tensor_einsum core fs skip tr) tensor_to_vec.
+
 (* ------------------------------------------------------------------ PARAFAC2 *)
 (* P^T P == I, decided exactly (on integer-valued projections |P^T P - I| > 1e-5 iff P^T P <> I) *)
 Definition orthonormalb (P : tensor F) (rank : nat) : bool :=
